@@ -993,6 +993,110 @@ def job_simu(cfg):
     return res
 
 
+# ------------------------------------------------------------------------------------------------ local Jacobian = derivative of the local residual
+def job_jacobian(cfg):
+    """General local Newton (`__Flow`): the tangent it returns is -C (dr/du)^-1 (dr/deps) restricted to the plastic / branch rows, so it is the
+    derivative of the returned stress exactly when `__Jacobian` returns J = dr/du and D = dr/deps of `__Residual` (implicit function theorem).
+    Both private methods are executed on a fully SYMBOLIC point (strain, committed state, unknown increments u - not necessarily converged -
+    and dt) and every entry of J and D is compared with the symbolic derivative of the corresponding residual row: no iteration is involved."""
+    from EasyFEA.FEM import FeArray
+
+    res = JobResult(cfg)
+    c = new_context()
+    facade.install()
+    law = cfg["law"]
+    el = elastic_law(law)
+    scale = Fraction(float(np.abs(el.C).max()))
+    nk = {"prager": 1, "af": 1, "chaboche": 2}.get(cfg.get("kinematic"), 0)
+    nb = cfg.get("branches", 0)
+    has_y = bool(cfg.get("surface"))
+    label = f"local Jacobian {cfg.get('surface')} {cfg.get('hardening')} kin={cfg.get('kinematic')} branches={nb} rate={cfg.get('rate')} {law}"
+    res.functions |= {"Behavior.__Residual", "Behavior.__Jacobian", "Behavior.Compute_sigma", "Behavior.Compute_elastic_strain", "Behavior.Compute_back_stress", "Yield.* (f, N, dNdSig)",
+                      "IsotropicHardening.Linear (R, dR)", "KinematicHardening.ArmstrongFrederick (X, modulus, recall)", "ViscoPlastic.Norton (inverse, dinverse)", "ViscoElastic.Maxwell"}
+    g = [0.25, 0.125][:nb]
+    tau = [2.0, 0.5][:nb]
+    dt = c.var("dt", Fraction(1, 10), 2, shadow=Fraction(1, 2)) if (nb or cfg.get("rate")) else 0.0
+
+    def mk():
+        return make_behavior(cfg, el, 3, False, "newton", g=g if nb else None, tau=tau if nb else None)
+
+    b0 = mk()
+    nz = b0.layout.n
+    nu = nz + (1 if has_y else 0)
+    # a stress state well outside the elastic range so that phi is away from 0: strains ~ 0.1 with sigma_y = 10, |C| = 240
+    eps = sym_array("eps", (6,), -Fraction(1, 4), Fraction(1, 4), shadows=[Fraction(1, 8), Fraction(-1, 20), Fraction(1, 50), Fraction(1, 40), Fraction(-1, 30), Fraction(1, 25)])
+    zold = sym_array("z", (nz,), -Fraction(1, 50), Fraction(1, 50), shadows=[Fraction((-1) ** k * (k + 2), 700 + 37 * k) for k in range(nz)])
+    u = sym_array("u", (nu,), -Fraction(1, 50), Fraction(1, 50), shadows=[Fraction((-1) ** (k + 1) * (k + 3), 900 + 41 * k) for k in range(nu)])
+    if has_y:
+        # accumulated plastic strain and plastic multiplier are non-negative quantities
+        pslot = b0.layout.slots["p"].start
+        zold[pslot] = c.var("p_old", 0, Fraction(1, 10), shadow=Fraction(1, 40))
+        u[pslot] = c.var("dp", 0, Fraction(1, 50), shadow=Fraction(1, 300))
+        u[nz] = c.var("dGamma", Fraction(1, 1000), Fraction(1, 50), shadow=Fraction(1, 250))
+    res.symbols = 6 + nz + nu + (1 if not isinstance(dt, float) else 0)
+
+    def run_float(env, du=None, de=None):
+        ef, zf, uf = farr(c, env, eps), farr(c, env, zold), farr(c, env, u)
+        if du is not None:
+            uf = uf + du
+        if de is not None:
+            ef = ef + de
+        dtf = fval(c, env, dt)
+        bb = mk()
+        Cf = bb._C_e_pg(1, 1)
+        r_, _, N_, dN_ = bb._Behavior__Residual(fe(ef), fe(uf), fe(zf), Cf, dtf)
+        J_, D_ = bb._Behavior__Jacobian(fe(uf), fe(zf), N_, dN_, Cf, dtf)
+        return np.asarray(r_)[0, 0], np.asarray(J_)[0, 0], np.asarray(D_)[0, 0]
+
+    def replay(env):
+        r0, J0, D0 = run_float(env)
+        h = 1e-7
+        Jn = np.zeros_like(J0)
+        Dn = np.zeros_like(D0)
+        for j in range(nu):
+            d_ = np.zeros(nu)
+            d_[j] = h
+            Jn[:, j] = (run_float(env, du=d_)[0] - run_float(env, du=-d_)[0]) / (2 * h)
+        for k in range(6):
+            d_ = np.zeros(6)
+            d_[k] = h
+            Dn[:, k] = (run_float(env, de=d_)[0] - run_float(env, de=-d_)[0]) / (2 * h)
+        eJ = float(np.abs(J0 - Jn).max() / max(1.0, np.abs(Jn).max()))
+        eD = float(np.abs(D0 - Dn).max() / max(1.0, np.abs(Dn).max()))
+        return max(eJ, eD) > 1e-5, {"relative_error_J_vs_finite_differences_of_the_residual": eJ, "relative_error_D_vs_finite_differences_of_the_residual": eD}
+
+    if preflight(res, c, replay, label):
+        return res
+    facade.EXACT_SQRT_OF.add(1.5)  # sqrt(3/2) of the von Mises norm as the exact algebraic number: the identities are then exact
+    res.stubs.add("np.sqrt(1.5) -> exact algebraic number r > 0, r^2 = 3/2 (the von Mises factor)")
+    mark = c.mark()
+    with facade.symbolic():
+        b = mk()
+        Cs = b._C_e_pg(1, 1)
+        r, sig, N, dNdSig = b._Behavior__Residual(fe(eps.copy()), fe(u.copy()), fe(zold.copy()), Cs, dt)
+        J, D = b._Behavior__Jacobian(fe(u.copy()), fe(zold.copy()), N, dNdSig, Cs, dt)
+    pcs = c.pc_since(mark)
+    res.paths, res.path_conditions = 1, len(pcs)
+    r, J, D = np.asarray(r, dtype=object)[0, 0], np.asarray(J, dtype=object)[0, 0], np.asarray(D, dtype=object)[0, 0]
+    dJ = np.empty((nu, nu), dtype=object)
+    dD = np.empty((nu, 6), dtype=object)
+    for i in range(nu):
+        ri = as_sym(r[i])
+        for j in range(nu):
+            dJ[i, j] = ri.diff(u[j])
+        for k in range(6):
+            dD[i, k] = ri.diff(eps[k])
+    tolJ = TOL * scale
+    record_entries(res, f"{label}: J = d residual / d unknowns", J, dJ, pcs, replay, TOL, scale=scale, key=f"{label}: J = dr/du",
+                   sample={"obligation": "every entry of the Jacobian returned by Behavior.__Jacobian equals the symbolic derivative of the residual row of Behavior.__Residual w.r.t. the unknown increment, for all strains, "
+                                         "committed states, increments (not only converged ones) and dt in the box (rational identities modulo the square-root definitions)", "unknowns": nu, "config": cfg})
+    record_entries(res, f"{label}: D = d residual / d strain", D, dD, pcs, replay, TOL, scale=scale, key=f"{label}: D = dr/deps")
+    o = prove_abs_le(as_sym(J[0, 0]) * 2 - as_sym(dJ[0, 0]), tolJ, pcs, "twin")
+    res.twin(f"{label} twin", o.status == "cex")
+    res.stubs |= facade.USED_STUBS
+    return res
+
+
 class _Budget(Exception):
     pass
 
@@ -1008,7 +1112,7 @@ def job(cfg):
     old = signal.signal(signal.SIGALRM, on_alarm)
     signal.alarm(JOB_BUDGET_S)
     try:
-        return {"elastic": job_elastic, "inactive": job_inactive, "maxwell": job_maxwell, "spectral": job_spectral, "probe": job_probe, "simu": job_simu}[cfg["kind"]](cfg)
+        return {"elastic": job_elastic, "inactive": job_inactive, "maxwell": job_maxwell, "spectral": job_spectral, "probe": job_probe, "simu": job_simu, "jacobian": job_jacobian}[cfg["kind"]](cfg)
     except _Budget:
         res = JobResult(cfg)
         res.inconclusive.append({"label": "job budget", "detail": f"symbolic run not finished after {JOB_BUDGET_S} s"})
@@ -1069,6 +1173,13 @@ def main():
         configs.append({"kind": "spectral", "law": "iso2", "mode": "3D", "surface": "vm", "side": 1, "amp": 3})
         # not in the bound: the transversely isotropic law (its shadow step stays elastic inside the theta box) and a symbolic committed plastic
         # strain (the admissibility query comes back `unknown`)
+    # local Jacobian / strain sensitivity of the general Newton = symbolic derivatives of its residual (every mechanism combination of the tier)
+    jac = [("vm", "linear", None, 0, None), ("vm", "linear", "af", 0, None), ("dp", "linear", None, 0, "norton"), ("hill", "linear", "chaboche", 1, None), ("vm", None, "prager", 2, None), (None, None, None, 2, None)]
+    if tier == "thorough":
+        jac += [("hill", "linear", None, 0, "perzyna"), ("dp", "linear", "af", 1, "norton"), ("vm", "linear", "chaboche", 2, None), ("hill", None, None, 1, None)]
+    for surf, hard, kin, nbr, rate in jac:
+        for law_ in (["iso"] if tier == "quick" else ["iso", "ti"]):
+            configs.append({"kind": "jacobian", "law": law_, "surface": surf, "hardening": hard, "kinematic": kin, "branches": nbr, "rate": rate})
     for seq in ("restore-save", "unsaved-solve"):
         for mode in (["pstrain", "pstress"] if tier == "quick" else ["pstrain", "pstress", "3D"]):
             configs.append({"kind": "simu", "mode": mode, "seq": seq})
